@@ -134,3 +134,11 @@ PROPS['C14'] = dict(
     rule='eng_c13: routed pairs on Denver and generated graphs with speeds from 5 to 110 km/h, inner travel time compared with an exact-rational Dijkstra; per-source potential certificates checked by the verified checker',
     trusted_base=['networkx.astar_path (oracle; optimality validated per instance by the Coq-verified potential certificate)', 'harness Dijkstra only supplies candidate potentials'],
 )
+
+import eng_c01
+PROPS['C01'] = dict(
+    props_file='Props/C01.v', kernels=[],
+    engines=[eng_c01.engine], extended=[eng_c01.engine], replayers=[eng_c01.replayer],
+    rule='eng_c01: each scenario (shipped Denver street-graph scenarios with fleets and region price tables; generated scenarios with vehicles in two fleets, tied plug types, equidistant stations, human drivers) run in fresh processes under several PYTHONHASHSEEDs; evaluations = runs; non-trivial = scenario produced more than 20 events',
+    trusted_base=['tools/py2v/inventory.py (syntactic scan: receivers are recognised by field / variable name)', 'the reconciliation of each site with its class in Model/IterOrder.v is by reading'],
+)
